@@ -127,6 +127,11 @@ class Shape:
         return ' '.join('(' + es.text(val) + ')' for es in self.serial)
 
     def module_text(self, val):
+        defs = ''
+        if self.context in ('valref', 'valref-component'):
+            # every integer of the constraint is written as a reference to a value assignment
+            defs = ' '.join(f"v{k} INTEGER ::= {val(k)}" for k in range(self.nph)) + ' '
+            val = lambda k: f"v{k}"
         c = self.constraint_text(val)
         base = self.size_of or 'INTEGER'
         if self.size_of in ('SEQUENCE OF', 'SET OF'):
@@ -135,10 +140,10 @@ class Shape:
             ty = f"{kw} {c2} OF BOOLEAN"
         else:
             ty = f"{base} {c}"
-        if self.context == 'assign':
-            body = f"T ::= {ty}"
-        elif self.context == 'component':
-            body = f"T ::= SEQUENCE {{ a {ty} }}"
+        if self.context in ('assign', 'valref'):
+            body = f"{defs}T ::= {ty}"
+        elif self.context in ('component', 'valref-component'):
+            body = f"{defs}T ::= SEQUENCE {{ a {ty} }}"
         elif self.context == 'seqof':
             body = f"T ::= SEQUENCE OF {ty}"
         elif self.context == 'ref':
@@ -231,6 +236,16 @@ def shapes(tier, contexts=('assign', 'component'), size_types=()):
     if 'ref' in contexts or thorough:
         for k1, k2 in itertools.product([('range', 'lo', 'hi'), ('single',)], [('range', 'lo', 'hi'), ('range', 'lo', 'MAX')]):
             out.append(Shape([ESet([mk_elem(k1)], [], False), ESet([mk_elem(k2)], [], False)], 'ref'))
+    # constraints whose integers are value references (resolved by the linker); half-open ranges included
+    for ctx in ('valref', 'valref-component'):
+        for k in ks[:4]:
+            for ext in ((False, True) if ctx == 'valref' else (False,)):
+                out.append(Shape([ESet([mk_elem(k)], [], ext)], ctx))
+        out.append(Shape([ESet([mk_elem(('range', 'lo', 'hi')), mk_elem(('range', 'lo', 'MAX'))], ['|'], False)], ctx))
+        out.append(Shape([ESet([mk_elem(('range', 'lo', 'hi'))], [], False), ESet([mk_elem(('range', 'lo', 'MAX'))], [], False)], ctx))
+        for st in size_types[:2] + size_types[-1:]:
+            for k in (('single',), ('range', 'lo', 'hi'), ('range', 'lo', 'MAX')):
+                out.append(Shape([ESet([mk_elem(k)], [], False)], ctx, size_of=st))
     for st in size_types:
         sz = [lambda: ESet([mk_elem(('single',))], [], False), lambda: ESet([mk_elem(('single',))], [], True),
               lambda: ESet([mk_elem(('range', 'lo', 'hi'))], [], False), lambda: ESet([mk_elem(('range', 'lo', 'hi'))], [], True),
@@ -336,9 +351,9 @@ def locate(items, shape):
     t = structs.get('T')
     if t is None:
         return None
-    if shape.context in ('assign', 'ref'):
+    if shape.context in ('assign', 'ref', 'valref'):
         return t.rasn_items(), t.fields[0].ty if t.fields else [], which
-    if shape.context == 'component':
+    if shape.context in ('component', 'valref-component'):
         fld = [f for f in t.fields if f.name == 'a']
         if not fld:
             return None
